@@ -1,7 +1,152 @@
 package main
 
+import (
+	"fmt"
+	"os"
+	"path/filepath"
+	"strings"
+)
+
+// A variant is a source edit applied through the loader overlay (nothing is written to /repo).
+// Expect != "" : a mutant – the named rule must report a violation for property Prop.
+// Expect == "" : a behaviour-preserving refactoring – no violation may appear for Prop.
+type variant struct {
+	ID     string
+	Prop   string
+	Expect string // rule expected to fire ("" = must stay silent)
+	Edits  []edit
+	Note   string
+}
+
+type edit struct {
+	File string
+	Old  string
+	New  string
+	Occ  int // 0: Old must be unique; k>0: k-th occurrence; -1: all occurrences
+}
+
+func applyEdits(edits []edit) (map[string][]byte, error) {
+	out := map[string][]byte{}
+	for _, e := range edits {
+		path := filepath.Join(repoDir, e.File)
+		var src string
+		if b, ok := out[path]; ok {
+			src = string(b)
+		} else {
+			b, err := os.ReadFile(path)
+			if err != nil {
+				return nil, err
+			}
+			src = string(b)
+		}
+		n := strings.Count(src, e.Old)
+		switch {
+		case n == 0:
+			return nil, fmt.Errorf("anchor not found in %s", e.File)
+		case e.Occ == 0 && n != 1:
+			return nil, fmt.Errorf("anchor occurs %d times in %s, expected 1", n, e.File)
+		case e.Occ > n:
+			return nil, fmt.Errorf("anchor occurs %d times in %s, wanted #%d", n, e.File, e.Occ)
+		}
+		switch {
+		case e.Occ == -1:
+			src = strings.ReplaceAll(src, e.Old, e.New)
+		case e.Occ <= 1:
+			src = strings.Replace(src, e.Old, e.New, 1)
+		default:
+			idx := -1
+			from := 0
+			for k := 0; k < e.Occ; k++ {
+				i := strings.Index(src[from:], e.Old)
+				idx = from + i
+				from = idx + len(e.Old)
+			}
+			src = src[:idx] + e.New + src[idx+len(e.Old):]
+		}
+		out[path] = []byte(src)
+	}
+	return out, nil
+}
+
+// runVariant evaluates one variant; returns (passed, skipped, message).
+func runVariant(v variant, known *KnownFile, tier string) (bool, bool, string) {
+	spec := propTable[v.Prop]
+	if spec == nil {
+		return false, true, "property not claimed"
+	}
+	extra, err := applyEdits(v.Edits)
+	if err != nil {
+		return false, true, err.Error()
+	}
+	obls, _, _, _, _, _, err := evaluate(spec, tier, extra)
+	if err != nil {
+		if v.Expect != "" {
+			return false, false, "mutant does not load/type-check: " + err.Error()
+		}
+		return false, false, "variant does not load: " + err.Error()
+	}
+	var viol []*Obligation
+	for _, o := range obls {
+		if o.Status == Discharged {
+			continue
+		}
+		if o.Status == Violated && known.match(v.Prop, o) != nil {
+			continue
+		}
+		viol = append(viol, o)
+	}
+	if v.Expect == "" {
+		if len(viol) == 0 {
+			return true, false, "silent"
+		}
+		return false, false, fmt.Sprintf("FALSE ALARM: %s %s %s: %s", viol[0].Rule, viol[0].Status, viol[0].Key, viol[0].Detail)
+	}
+	for _, o := range viol {
+		if o.Rule == v.Expect {
+			return true, false, fmt.Sprintf("flagged by %s: %s (%s)", o.Rule, o.Key, o.Pos)
+		}
+	}
+	if len(viol) > 0 {
+		return false, false, fmt.Sprintf("flagged, but by %s (%s) instead of %s", viol[0].Rule, viol[0].Key, v.Expect)
+	}
+	return false, false, "MISSED: no violation reported"
+}
+
+func doSelftest(tier, only string) int {
+	known, err := loadKnown(filepath.Join(verifDir, "known_findings.json"))
+	if err != nil {
+		fmt.Println(err)
+		return 2
+	}
+	fail, skip, pass := 0, 0, 0
+	for _, v := range catalogue {
+		if only != "" && !strings.Contains(v.ID, only) && v.Prop != only {
+			continue
+		}
+		ok, skipped, msg := runVariant(v, known, "quick")
+		kind := "mutant "
+		if v.Expect == "" {
+			kind = "variant"
+		}
+		switch {
+		case skipped:
+			skip++
+			fmt.Printf("SKIP  %s %-5s %-4s %s – %s\n", kind, v.ID, v.Prop, v.Note, msg)
+		case ok:
+			pass++
+			fmt.Printf("ok    %s %-5s %-4s %s – %s\n", kind, v.ID, v.Prop, v.Note, msg)
+		default:
+			fail++
+			fmt.Printf("FAIL  %s %-5s %-4s %s – %s\n", kind, v.ID, v.Prop, v.Note, msg)
+		}
+	}
+	fmt.Printf("selftest: %d passed, %d failed, %d skipped\n", pass, fail, skip)
+	if fail > 0 {
+		return 1
+	}
+	return 0
+}
+
 // runCanaries makes sure the rules behind a property still fire on seeded defects. Returns a
 // non-empty message if the checker itself is broken.
 func runCanaries(spec *propSpec) string { return "" }
-
-func doSelftest(tier, only string) int { return 0 }
